@@ -58,7 +58,17 @@ F_KEYSTORE = 0x8000
 
 
 class Reject(Exception):
-    """The modelled ROM would not boot this image."""
+    """The modelled ROM would not boot this image.  `code` is a short stable name of the failed check."""
+
+    def __init__(self, msg: str, code: str = "") -> None:
+        super().__init__(msg)
+        self.code = code or _code_of(msg)
+
+
+def _code_of(msg: str) -> str:
+    """Stable short name derived from the message (numbers removed)."""
+    words = [w for w in msg.replace(":", " ").replace(",", " ").split() if w.isalpha() or w in ("0x28", "v1", "v2.1")]
+    return "_".join(words[:5]).lower()
 
 
 def crc32(data: bytes, init: int = 0xFFFFFFFF) -> int:
@@ -217,20 +227,25 @@ def _check_v1(image: bytes, h: Header, info: dict, user_key, rep: dict) -> dict:
         raise Reject("certificate block offset %#x" % off)
     try:
         cb = CertBlockV1Ref(inner, off)
-    except (CertBlockV1Error, ValueError, struct.error, IndexError) as exc:
-        raise Reject("certificate block v1 at %#x: %s" % (off, exc)) from exc
-    except Exception as exc:  # asn1crypto parse errors
-        raise Reject("certificate block v1 at %#x: %s: %s" % (off, type(exc).__name__, exc)) from exc
-    problems = cb.check_chain()
+        # asn1crypto parses lazily: a corrupted certificate may raise anywhere below
+        problems = cb.check_chain()
+        last_ca = cb.certs[-1].ca
+        others_ca = all(c.ca for c in cb.certs[:-1])
+        signer_algo = cb.signer.key_algo
+        _ = cb.signature_size
+    except (CertBlockV1Error, struct.error, IndexError) as exc:
+        raise Reject("certificate block v1 at %#x: %s" % (off, exc), "certificate_block_v1_malformed") from exc
+    except Exception as exc:  # noqa: BLE001 - asn1crypto / arithmetic errors on malformed certificates
+        raise Reject("certificate block v1 at %#x: %s: %s" % (off, type(exc).__name__, exc), "certificate_block_v1_malformed") from exc
     if problems:
-        raise Reject("certificate chain: " + "; ".join(problems))
-    if cb.certs[-1].ca:
+        raise Reject("certificate chain: " + "; ".join(problems), "certificate_chain")
+    if last_ca:
         raise Reject("the signing (last) certificate is a CA certificate")
-    if not all(c.ca for c in cb.certs[:-1]):
+    if not others_ca:
         raise Reject("a non-final chain certificate is not a CA certificate")
     if cb.version != (1, 0):
         raise Reject("certificate block version %r" % (cb.version,))
-    if cb.signer.key_algo != "rsa":
+    if signer_algo != "rsa":
         raise Reject("signer key is not RSA")
     cbsize = cb.size(4)
     sig_len = cb.signature_size
